@@ -190,10 +190,10 @@ static void exec_op(Task* t, OpRec& rec, bool preempt) {
         size_t n = (size_t)(op.b % 4097); if (!n) n = 1;
         u8* key = (u8*)malloc(n + KEY_GUARD); memset(key, 0x77, n + KEY_GUARD);
         rec.bufs.push_back({key, n, BUF_KEY});
-        E.watch_p = key; E.watch_n = n; E.watch_hits = 0; E.watch_armed = false;
+        t->watch_p = key; t->watch_n = n; t->watch_hits = 0; t->watch_armed = false;
         enter([&] { polyseed_keygen(seed, (polyseed_coin)(op.a & 2047), n, key); });
-        E.watch_p = nullptr;
-        rec.ret = E.watch_hits;
+        t->watch_p = nullptr;
+        rec.ret = t->watch_hits;
         rec.out.assign(key, key + n);
         for (size_t i = n; i < n + KEY_GUARD; ++i) if (key[i] != 0x77) rec.guard_broken = true;
         free(key);
